@@ -11,6 +11,7 @@ import OcVerif.Driver.Local
 import OcVerif.Driver.Beans
 import OcVerif.Driver.Sel
 import OcVerif.Driver.Stack
+import OcVerif.Driver.Trap
 /-!
 `ocmodel`: reads history lines `<comp> <id> : <body> => <implementation outputs>` on stdin,
 runs the Lean model on `<body>`, compares with the implementation's outputs and evaluates the
@@ -35,6 +36,7 @@ def dispatch (comp : String) : Option (String → String → Verdict) :=
   | "beans" => some Driver.Beans.drive
   | "sel" => some Driver.Sel.drive
   | "stack" => some Driver.Stack.drive
+  | "trap" => some Driver.Trap.drive
   | _ => none
 
 def handle (line : String) : String :=
